@@ -131,7 +131,7 @@ func (c *Chain) RunBlock(dt int64, txs [][]byte) (res BlockResult, resp *abci.Re
 		var err error
 		resp, err = c.W.App.FinalizeBlock(&abci.RequestFinalizeBlock{
 			Height: c.Height, Time: c.Time, Hash: BlockHash(c.Height),
-			ProposerAddress:   c.W.Vals[0].Pub.Address().Bytes(),
+			ProposerAddress:   c.W.Vals[0].ConsAddress(),
 			Txs:               txs,
 			DecidedLastCommit: abci.CommitInfo{Votes: c.Votes},
 		})
